@@ -9,7 +9,8 @@ pedal/sandbox/sandbox.py (`_execute_with_timeout` and its `except TimeoutError` 
 `_capture_exception`).
 
 Grader thread G:  join(duration) → [timer] → `is_alive() and claim_finish()` → terminate()
-(async SystemExit posted) → TimeoutError handler: `_stop_patches` → pop stdout + append_output
+(async SystemExit posted; on a thread that ended meanwhile: nothing, or — not `termTolerant` —
+an AssertionError that leaves `run()`) → TimeoutError handler: `_stop_patches` → pop stdout + append_output
 → `_capture_exception(timeout)` → `_next_context_id += 1` → return;  or, when the claim is
 lost, join() the thread that is finishing by itself.  Then E2: clear_exception/new context →
 push buffer → start patches → student code of E2 writes twice → `_stop_patches` → pop +
@@ -39,6 +40,9 @@ structure Cfg where
   handlerPops : Bool
   /-- the `except TimeoutError` handler advances `_next_context_id` -/
   handlerBumps : Bool
+  /-- `InterruptableThread.terminate()` on a thread that has already ended does nothing (instead of
+  failing `assert self.is_alive()`) -/
+  termTolerant : Bool
   deriving Repr, DecidableEq
 
 /-- who wrote a piece of output: E1's student code, E2's first / second print -/
@@ -113,13 +117,15 @@ structure St where
   depthAtReturn : Option (Nat × Nat)
   excBeforeNext : Option Exc
   e2Escaped : Bool
+  e1Escaped : Bool          -- an exception (AssertionError) escaped from `run(threaded=True)`
   deriving Repr, DecidableEq
 
 def init : St :=
   { gpc := .join, tpc := .start, claim := none, pending := false, tExit := .normal, timedOut := false,
     patches := [], stdouts := [], sysStdout := .real, buf1 := [], buf2 := [], real := [], raw := [],
     out1 := [], out2 := [], ctxs := 0, id1 := 0, id2 := 0, nextId := 0, exc := .none, feedback := [],
-    excAtReturn := none, depthAtReturn := none, excBeforeNext := none, e2Escaped := false }
+    excAtReturn := none, depthAtReturn := none, excBeforeNext := none, e2Escaped := false,
+    e1Escaped := false }
 
 def St.content (s : St) : Target → List Tok
   | .real => s.real
@@ -201,7 +207,12 @@ def stepG (cfg : Cfg) (s : St) : St :=
       if s.tpc ≠ .dead ∧ s.claim = none then { s with claim := some .g, gpc := .term }
       else { s with gpc := .wait }
     else if s.tpc ≠ .dead then { s with gpc := .term } else { s with gpc := .ret }
-  | .term => { s with pending := (if s.tpc = .dead then s.pending else true), timedOut := true, gpc := .hStop }
+  | .term =>
+    -- `terminate()`: `assert self.is_alive()`, then post the async SystemExit
+    if s.tpc = .dead then
+      if cfg.termTolerant then { s with timedOut := true, gpc := .hStop }
+      else { s with e1Escaped := true, gpc := .done }   -- AssertionError leaves `run()`; nothing is finalized
+    else { s with pending := true, timedOut := true, gpc := .hStop }
   | .hStop => { s.stopPatches with gpc := if cfg.handlerPops then .hPop else .hCap }
   | .hPop =>
     match s.stdouts with
@@ -261,6 +272,6 @@ def encSt (s : St) : String :=
   s!"sysreal={encBool (s.sysStdout == .real)} raw={encToks s.raw} out1={encToks s.out1} out2={encToks s.out2} " ++
   s!"real={encToks s.real} id1={s.id1} id2={s.id2} next={s.nextId} excret={encOptExc s.excAtReturn} " ++
   s!"depthret={(s.depthAtReturn.map fun (a, b) => s!"{a}/{b}").getD "-"} excnext={encOptExc s.excBeforeNext} " ++
-  s!"e2escaped={encBool s.e2Escaped}"
+  s!"e2escaped={encBool s.e2Escaped} e1escaped={encBool s.e1Escaped}"
 
 end Pedal.Timeout
